@@ -16,7 +16,9 @@ RULE = ("Hypothesis constructs templates of 1..8 operations whose positional arg
         "sharing a mode that differ in (name, modes), change the version, change/add/remove the target: TemplateError (exactly) "
         "must be raised. Non-trivial = a parameter occurring in >=2 arguments with different affine forms, or >=1 commuting swap "
         "applied, or a negative edit. Distinct = SHA-1 of template text + instance text.")
-ASSUMPTIONS = ["'inconsistent values' rejections are not asserted (the property does not list them)"]
+ASSUMPTIONS = ["'inconsistent values' rejections are not asserted (the property does not list them)",
+               "a program whose whole-valued float arguments are written as integer literals (4 for 4.0) has operations that compare "
+               "equal to the instantiation's and is treated as the same instantiation"]
 BUDGET = {"quick": (1600, 4), "thorough": (24000, 16)}
 
 _OPS = ["Sgate", "Dgate", "BSgate", "Rgate", "Vac", "Xgate", "MeasureX"]
@@ -86,6 +88,7 @@ def case(draw, tier):
     script = A.Script("tmpl", "1.0", A.Meta(target, None) if target else None, None, [], items)
     vals = {p: draw(st.one_of(st.floats(min_value=-5, max_value=5, allow_nan=False).filter(lambda x: abs(x) > 1e-2),
                               st.floats(min_value=-5, max_value=5, allow_nan=False).filter(lambda x: abs(x) > 1e-2),
+                              st.sampled_from([1.5, 2.5, 0.5, -1.5, 3.0, 2.0, 0.25, 1.75, -0.5, 4.5, 6.0]),
                               st.sampled_from([1e6, -3.5e7, 2.25e9, 1e-6, -4e-5, 123456.789]))) for p in params}
     swaps = draw(st.lists(st.integers(0, max(0, len(items) - 2)), max_size=10))
     if draw(st.booleans()):
@@ -301,6 +304,42 @@ def check(c):
         if abs(got - v) > 1e-9 * abs(v) + 1e-13 * scale.get(k, 0.0):
             out.violations.append(Violation("result|value", "parameter %s matched to %r, generated value %r\n%s" % (k, got, v, ctx)))
             return out
+    # the same program with every whole-valued float argument written as an integer literal (4 instead of 4.0): its
+    # operations compare equal to the instance's, so it is the same instantiation
+    try:
+        items2, changed = [], 0
+        for it, o in zip(inst_script.items, P.operations):
+            if it.args is None:
+                items2.append(it)
+                continue
+            pos2 = []
+            for a_, v_ in zip(it.args.pos, o.get("args", [])):
+                if type(v_) is float and v_.is_integer() and abs(v_) < 1e9 and not (isinstance(a_, A.Flat) and len(a_.operands) == 1
+                                                                                   and isinstance(a_.operands[0].prim, A.Num)):
+                    pos2.append(S.F1(A.Num("int", str(abs(int(v_)))), "-" if v_ < 0 else ""))
+                    changed += 1
+                else:
+                    pos2.append(a_)
+            items2.append(A.Stmt(it.op, A.Args(pos2, it.args.kwargs, False), it.modes, it.lbr, it.rbr))
+        if changed:
+            i2_text = render.render(A.Script(inst_script.name, inst_script.version, inst_script.target, inst_script.ptype, [], items2))
+            P2, e3 = K.safe_loads(i2_text)
+            if e3 is None and P2.operations == P.operations:
+                out.classes.append("whole-valued-arguments-as-int-literals")
+                out.nontrivial = True
+                ctx2 = "template:\n%s\nprogram:\n%s\nvalues: %r" % (t_text, i2_text, c["values"])
+                try:
+                    r3 = match_template(T, P2)
+                except Exception as ex:
+                    out.violations.append(Violation("int-literal-instance-rejected|" + exc_bucket("match", ex) + "|" + _msg_class(ex),
+                                                    "match_template raised %s: %s\n%s" % (type(ex).__name__, ex, ctx2)))
+                    return out
+                if not isinstance(r3, dict) or set(r3) != set(c["values"]) or any(
+                        abs(float(r3[k]) - v) > 1e-9 * abs(v) + 1e-13 * scale.get(k, 0.0) for k, v in c["values"].items()):
+                    out.violations.append(Violation("int-literal-instance|result", "returned %r for values %r\n%s" % (r3, c["values"], ctx2)))
+                    return out
+    except render.RenderError as e:
+        raise HarnessError(str(e))
     # the same law for an instance made by the template itself, after the template has been matched once
     try:
         inst = T(**c["values"])
